@@ -426,7 +426,7 @@ func PlaySched(beh M) ([]M, error) {
 			}()
 			<-ready
 			res = s.settle(a)
-		case "KLock", "KDecide", "KUnlock", "KReturn", "CLock", "CDecide", "CEnter", "CFinish":
+		case "KLock", "KDecide", "KUnlock", "KReturn", "CLock", "CDecide", "CEnter", "CStart", "CFinish":
 			res = step(a)
 		case "KWaitBegin":
 			res = step(a)
